@@ -123,6 +123,18 @@ theorem https_http (r : List Rune) :
 theorem replaceHttps_idem (w : List Rune) : replaceHttps (replaceHttps w) = replaceHttps w :=
   replaceHttps_idem' w
 
+/-- `normalizeToken` (the scheme rewrite as repaired for Normalize's case-preserving mode): a word
+that starts with a capitalised `Https://` is rewritten like its lower-case form — lower-casing the
+first rune afterwards gives what the lower-cased word is rewritten to — and the rewrite is
+idempotent. -/
+theorem normalizeToken_capital (r : List Rune) :
+    normalizeToken (72 :: LC.V2Env.lit "ttps://" ++ r) = 72 :: LC.V2Env.lit "ttp://" ++ replaceHttps r ∧
+    normalizeToken (104 :: LC.V2Env.lit "ttps://" ++ r) = 104 :: LC.V2Env.lit "ttp://" ++ replaceHttps r := by
+  constructor <;> simp [normalizeToken, fixHttpsHead, replaceHttps, LC.V2Env.lit]
+
+theorem normalizeToken_idem (w : List Rune) : normalizeToken (normalizeToken w) = normalizeToken w :=
+  normalizeToken_idem' w
+
 open LC.V2Match in
 /-- The last sentence of the property fails at the `Match` level (recorded finding): a Copyright
 pseudo-match whose line lies inside the span of a retained license is dropped by the retain pass. -/
